@@ -82,8 +82,8 @@ func tableConcat(L *LState) int {
 func tableInsert(L *LState) int {
 	tbl := L.CheckTable(1)
 	nargs := L.GetTop()
-	if nargs == 1 {
-		L.RaiseError("wrong number of arguments")
+	if nargs < 2 || nargs > 3 { // tinsert takes (table, value) or (table, pos, value)
+		L.RaiseError("wrong number of arguments to 'insert'")
 	}
 
 	if L.GetTop() == 2 {
